@@ -14,6 +14,10 @@ class XE(Exception):
     pass
 
 
+class BXE(BaseException):
+    pass
+
+
 class FXE(XE):
     """an exception object that is falsy (as error aggregates with __len__ == 0 are): the library must test
     `is not None`, never truthiness"""
@@ -57,7 +61,8 @@ def execute(p, chooser):
         if e not in obs["excs"]:
             from concurrent.futures import CancelledError
             # besides ordinary exceptions: falsy ones, and types the future / iteration machinery gives a meaning of its own
-            cls = FXE if e % 3 == 0 else CancelledError if e % 7 == 1 else StopIteration if e % 7 == 2 else XE
+            # ... and a BaseException that is not an Exception (what a pool stores for a callable that called sys.exit())
+            cls = FXE if e % 3 == 0 else CancelledError if e % 7 == 1 else StopIteration if e % 7 == 2 else BXE if e % 7 == 4 else XE
             obs["excs"][e] = cls("e%d" % e)
         return obs["excs"][e]
 
